@@ -102,6 +102,56 @@ fn commit_follows_rule<const W: usize>(np: usize, hr: usize) {
     vcheck!("C28.rowhash.prover.follows_rule", ok);
 }
 
+/// the same for a matrix over the quadratic extension (the auxiliary-trace and constraint-composition
+/// commitments): W extension columns = 2W base elements per row, partition size counted in columns
+fn commit_follows_rule_quad<const W: usize>(np: usize, hr: usize) {
+    use math::fields::QuadExtension;
+    type Q = QuadExtension<F64>;
+    mk::reset();
+    let mut data = Vec::new();
+    let mut bytes = [[0u8; 48]; 2];
+    let mut r = 0;
+    while r < 2 {
+        let mut i = 0;
+        while i < 2 * W {
+            let v = vs::any_u64();
+            vs::assume(v < 0xffffffff00000001);
+            data.push(F64::from_mont(v));
+            bytes[r][8 * i..8 * i + 8].copy_from_slice(&v.to_le_bytes());
+            i += 1;
+        }
+        r += 1;
+    }
+    let m = RowMatrix::<Q> { data, row_width: 2 * W, elements_per_row: 2 * W };
+    let po = PartitionOptions::new(np, hr);
+    // the partition size the verifier computes for this commitment: in columns of the extension field
+    let p = po.partition_size::<Q>(W);
+    let _vc: RecVC = m.commit_to_rows::<HR, RecVC>(po);
+    let s0 = mk::rowhash_spec(0, &bytes[0][..16 * W], 16, p);
+    let ok = match s0 {
+        Some((n0, out0)) => match mk::rowhash_spec(n0, &bytes[1][..16 * W], 16, p) {
+            Some((n1, out1)) => unsafe {
+                n1 == mk::calls() && N_ITEMS == 2 && ITEMS[0][..DN] == out0 && ITEMS[1][..DN] == out1
+            },
+            None => false,
+        },
+        None => false,
+    };
+    vcheck!("C28.rowhash.prover.follows_rule.extension_field", ok);
+}
+
+//# harness: fn=RowMatrix::commit_to_rows over QuadExtension (aux / constraint commitments); label=bounded(2 rows; 2 and 3 extension columns; partition settings (1,1), (2,1), (2,8), (2,2); every element, any hash function); tier=quick; uses=commit_follows_rule_quad; timeout=900
+#[cfg_attr(kani, kani::proof)]
+#[cfg_attr(kani, kani::unwind(50))]
+#[cfg_attr(kani, kani::stub(alloc::fmt::format, vs::fake_format))]
+pub fn k_c28_prover_commit_to_rows_extension() {
+    commit_follows_rule_quad::<2>(1, 1);
+    commit_follows_rule_quad::<2>(2, 1);
+    commit_follows_rule_quad::<3>(2, 2);
+    commit_follows_rule_quad::<3>(2, 8);
+    vreach!("C28.prover_ext.reach");
+}
+
 //# harness: fn=RowMatrix::commit_to_rows, PartitionOptions::partition_size, num_partitions; label=bounded(2 rows; widths 1..=6; partition settings (1,1), (2,1), (2,8), (4,1), (3,2); every element, any hash function); tier=quick; uses=commit_follows_rule; timeout=900
 #[cfg_attr(kani, kani::proof)]
 #[cfg_attr(kani, kani::unwind(34))]
